@@ -55,9 +55,9 @@ def child_strategy(depth=0):
 def frame_strategy(depth=0):
     child = child_strategy(depth)
     return st.one_of(
-        st.builds(lambda c, b, t, ta, ex, p, w: {"k": "panel", "child": c, "box": b, "title": t, "title_align": ta, "expand": ex, "padding": p, "width": w},
-                  child, st.sampled_from(GT.BOXES), st.one_of(st.none(), st.none(), st.sampled_from(["T", "title", "a longer title here", GC.WIDE[0] * 3])), st.sampled_from(["left", "center", "right"]),
-                  st.booleans(), GT.pad_strategy(), st.one_of(st.none(), st.none(), st.integers(8, 60))),
+        st.builds(lambda c, b, t, ta, ex, p, w, tj: {"k": "panel", "child": c, "box": b, "title": t, "title_align": ta, "expand": ex, "padding": p, "width": w, "title_justify": tj},
+                  child, st.sampled_from(GT.BOXES), st.one_of(st.none(), st.none(), st.sampled_from(["T", "title", "a longer title here", GC.WIDE[0] * 3, "a\tb"])), st.sampled_from(["left", "center", "right"]),
+                  st.booleans(), GT.pad_strategy(), st.one_of(st.none(), st.none(), st.integers(8, 60)), st.sampled_from([None, None, "left", "center", "right", "full"])),
         st.builds(lambda c, p, ex: {"k": "padding", "child": c, "pad": p, "expand": ex}, child, GT.pad_strategy(), st.booleans()),
         st.builds(lambda c, a, p, w: {"k": "align", "child": c, "align": a, "pad": p, "width": w}, child, st.sampled_from(["left", "center", "right"]), st.booleans(), st.one_of(st.none(), st.none(), st.integers(2, 40))),
         st.builds(lambda c, w: {"k": "constrain", "child": c, "width": w}, child, st.one_of(st.none(), st.integers(2, 60))),
@@ -155,7 +155,7 @@ class Frames(Part):
                 if set(bottom[1:-1]) - {bx.bottom}:
                     ctx.violation("frame", "C08/border/panel", "bottom border %r\n%s" % (bottom, desc))
                     return
-                if fr["title"] is not None and pw >= OC.width(fr["title"]) + 6:  # " title " between corner+1 border cells on each side
+                if fr["title"] is not None and "\t" not in fr["title"] and pw >= OC.width(fr["title"]) + 6:  # " title " between corner+1 border cells on each side
                     if fr["title"] not in top:
                         ctx.violation("frame", "C08/title/panel", "title %r missing from %r\n%s" % (fr["title"], top, desc))
                         return
